@@ -687,7 +687,7 @@ def coq_want(o):
 
 # ------------------------------------------------------------------ run
 def run(ctx):
-    built = ctx.build(extra_targets=["theories/Model/ExpandRun.v"])
+    built = ctx.build(extra_targets=["theories/Model/ExpandRun.v", "theories/Properties/Valid.v"])
     ctx.extra["rule"] = ("documents with 0-4 referencing and 1-3 referenced responsible parties (creator/contact/metadataProvider/publisher/"
                          "associatedParty/personnel, trailing roles where the rule has them) in sampled arrangements of document order, same-rule "
                          "and cross-rule, schema-ordered and shuffled, with no/uniform/mixed namespace maps; the fixture document; other rules "
